@@ -220,6 +220,10 @@ func (g *G) msg(kind string, v *view, aware bool, who int, depth int) script.Msg
 			}
 		}
 		ptok, amt, denom := g.acct(p), g.pick("1", "24", "1000", "5000", "1000000", "5000000000000", "2000000000000"), script.Tok(v.entDenom)
+		if g.chance(7) { // totals beyond 2^62 / 2^63 / 2^64 and far beyond (sdk.Int is 256 bit)
+			amt = g.pick("4611686018427387904", "9223372036854775807", "18446744073709551616",
+				"1606938044258990275541962092341162602522202993782792835301376")
+		}
 		if !aware {
 			switch g.rng.Intn(4) {
 			case 0:
@@ -234,6 +238,9 @@ func (g *G) msg(kind string, v *view, aware bool, who int, depth int) script.Msg
 
 	case "ent.decide":
 		s, id, dec := who, g.unknownID(v.poNext), g.pick("2", "2", "2", "3")
+		if g.w.quorum {
+			dec = g.pick("2", "3")
+		}
 		if aware && len(v.raised) > 0 {
 			po := v.raised[g.rng.Intn(len(v.raised))]
 			id = u(po.id)
@@ -465,6 +472,9 @@ func (g *G) msg(kind string, v *view, aware bool, who int, depth int) script.Msg
 		ttok := g.acct(g.other(f))
 		if g.chance(8) {
 			ttok = "Mgov"
+			if g.w.genesis && g.chance(75) { // coins held by gov make every later genesis import fail: keep it rare
+				ttok = g.acct(g.other(f))
+			}
 		}
 		coins := g.pick("1nund", "1000nund", "5btoken", "7atoken", "1000000000000nund", "3btoken,9nund", "1atoken,1btoken,1nund")
 		ftok := g.acct(f)
